@@ -592,10 +592,23 @@ def ev(n, env, funcs=None):
                 out_ = list(it_)
                 _sort_in_place(out_, _kw(n, env, funcs))
                 return out_
-        if isinstance(f, ast.Name) and fname in ('min', 'max') and len(args) == 1 and n.keywords and isinstance(args[0], (list, tuple)):
+        if isinstance(f, ast.Name) and fname in ('min', 'max') and n.keywords and args:
             kw_ = _kw(n, env, funcs)
-            if callable(kw_.get('key')) and args[0]:
-                return (min if fname == 'min' else max)(args[0], key=kw_['key'])
+            if set(kw_) <= {'key', 'default'} and (kw_.get('key') is None or callable(kw_.get('key'))):
+                its_ = args
+                if len(args) == 1:
+                    a0 = args[0]
+                    if isinstance(a0, dict) or type(a0).__name__ in ('dict_keys', 'dict_values', 'dict_items') or isinstance(a0, (set, frozenset, range, str)):
+                        a0 = list(a0)
+                    if not isinstance(a0, (list, tuple)):
+                        raise Unsupported('%s over %r' % (fname, type(a0).__name__))
+                    its_ = list(a0)
+                    if not its_:
+                        if 'default' in kw_:
+                            return kw_['default']
+                        raise ValueError('%s() iterable argument is empty' % fname)
+                pick = min if fname == 'min' else max
+                return pick(its_, key=kw_['key']) if kw_.get('key') is not None else pick(its_)
         if isinstance(f, ast.Name) and fname in ('all', 'any', 'sum') and len(args) == 1 and isinstance(args[0], (list, tuple)):
             return {'all': all, 'any': any, 'sum': sum}[fname](args[0])
         if fname in ('min', 'max') and args:
@@ -610,16 +623,29 @@ def ev(n, env, funcs=None):
             return len(args[0])
         if fname == 'range' and isinstance(f, ast.Name) and all(isinstance(a, int) for a in args):
             return list(range(*args))
-        if fname == 'enumerate' and isinstance(f, ast.Name) and len(args) == 1 and isinstance(args[0], (list, tuple)):
-            return list(enumerate(args[0]))
+        if fname == 'enumerate' and isinstance(f, ast.Name) and 1 <= len(args) <= 2:
+            it_ = args[0]
+            if isinstance(it_, dict) or type(it_).__name__ in ('dict_keys', 'dict_values', 'dict_items') or isinstance(it_, (set, frozenset, range, str)):
+                it_ = list(it_)
+            if isinstance(it_, PyStub) and hasattr(it_, '__iter__'):
+                it_ = list(it_)
+            if isinstance(it_, (list, tuple)):
+                start_ = args[1] if len(args) == 2 else _kw(n, env, funcs).get('start', 0)
+                return list(enumerate(it_, start_))
         if isinstance(f, ast.Name) and fname == 'getattr' and len(args) in (2, 3) and isinstance(args[1], str):
             o_ = args[0]
             if isinstance(o_, Obj):
-                if args[1] in o_.fields:
-                    return o_.fields[args[1]]
+                nm_ = args[1]            # (a string given to getattr is not name-mangled)
+                if nm_ in o_.fields:
+                    return o_.fields[nm_]
+                if args[1] in o_.methods:
+                    return _BoundMethod(o_, args[1])           # getattr(obj, 'method'): a bound method taken as a value
+                consts_ = getattr(o_, 'consts', None) or {}
+                if args[1] in consts_:
+                    return consts_[args[1]]
                 if len(args) == 3:
                     return args[2]
-                raise Unsupported('record has no field %s' % args[1])
+                raise AttributeError(args[1])
             if isinstance(o_, PyStub):
                 if hasattr(o_, args[1]):
                     return getattr(o_, args[1])
